@@ -85,7 +85,10 @@ func (dec *Decoder) readStringAsBytes(utf16Length int) (data []byte, safe bool) 
 			}
 		}
 		remains := length - off
-		if remains > 0 {
+		// complete: bytes are left over, or the last unit ended exactly at the end
+		// of the window (nothing more is needed, and at the end of the input
+		// asking for more would report EOF for a string that is all there)
+		if remains > 0 || remains == 0 && utf16Length == 0 {
 			dec.head += off
 			if data == nil {
 				return buf[:off], false
